@@ -10,7 +10,8 @@ EXPLANATION = ("Narrow claim, necessary conditions only: R18.1 every OpenOptions
                "open (the replaced writer is dropped, hence flushed into the old inode), under the state lock by construction; R18.3 reset validates "
                "the write mode and builds the new state before replacing the old one; R18.4 reopen_output / trigger_rotation fan out to the file "
                "writer and every additional writer, keeping the first error. R18.4 also: the additional writers are iterated for every kind of primary writer."
-               " R18.1 also (shared with R06.1): the path stored for re-opening is exactly the path that was opened. R18.3 also (shared with R08.5): reset opens nothing and reads no file length before the old state is replaced (dropped, flushed).")
+               " R18.1 also (shared with R06.1): the path stored for re-opening is exactly the path that was opened. R18.3 also (shared with R08.5): reset opens nothing and reads no file length before the old state is replaced (dropped, flushed)."
+               " R18.4 also: MultiWriter::reopen_output / trigger_rotation address the file writer and the additional writer exactly once each whenever present; FileLogWriter::rotate returns Ok only after one forced rotation of the state.")
 ASSUMPTIONS = ["inode semantics of external rename/remove (OS)", "BufWriter flushes on drop"]
 NOT_DECIDED = ["inode semantics of external rename/remove", "content of old vs new family", "async mode (outside the property)"]
 FLOORS = {'R18.1': 1, 'R18.3': 1, 'R18.4': 2}
@@ -117,6 +118,51 @@ def run(R, ctx):
                 bad = f"{m}: with primary writer = {multi} the additional writers are not iterated at all: file writers registered with add_writer are never addressed"
             n += 1
         R.check('R18.4', f"{hb.path}|fan-out", not bad and n >= 3, f"{n} rows", f"{bad}", where=hb.loc())
+    multi_fanout(R, ctx, 'R18.4')
+
+
+def multi_fanout(R, ctx, rule, methods=('reopen_output', 'trigger_rotation')):
+    """second level of the fan-out: MultiWriter hands the request to its file writer AND to its additional writer whenever they exist (decision rows over
+    the four presence combinations), and - for the rotation - FileLogWriter::rotate ends in the forced rotation of the state"""
+    f = ctx.f
+    VERB = {'reopen_output': r'::(reopen_outputfile|reopen_output)$', 'trigger_rotation': r'::rotate$'}
+    for m in methods:
+        b = ctx.body(rf'^primary_writer::multi_writer::MultiWriter::{m}$')
+        bad = None
+        combos = set()
+        for r in FDI(f, effects=[VERB[m]], no_inline=[VERB[m]], max_rows=2000).run(b.path):
+            if r.undecided:
+                raise CheckError(f"{rule}: MultiWriter::{m} UNDECIDED {r.undecided}")
+            fw, ow = r.get('variant(self.o_file_writer)'), r.get('variant(self.o_other_writer)')
+            nf = sum(1 for e in r.effects if 'o_file_writer' in e[1][0])
+            no = sum(1 for e in r.effects if 'o_other_writer' in e[1][0])
+            combos.add((fw, ow))
+            if fw == 'Some' and nf != 1:
+                bad = f"with a file writer present it is addressed {nf} times (additional writer: {ow})"
+            elif ow == 'Some' and no != 1 and not (fw == 'Some' and False):
+                bad = f"with an additional writer present it is addressed {no} times (file writer: {fw})"
+            elif (fw == 'None' and nf) or (ow == 'None' and no):
+                bad = "a writer that is absent is addressed"
+        if not bad and len({c for c in combos if None not in c}) < 4:
+            raise CheckError(f"{rule}: MultiWriter::{m}: presence combinations not recognised ({sorted(map(str, combos))})")
+        R.check(rule, f"{b.path}|fan-out", not bad, "file writer and additional writer are each addressed exactly once whenever present", f"MultiWriter::{m}: {bad}", where=b.loc())
+    if 'trigger_rotation' in methods:
+        MOUNT = r'State::mount_next_linewriter_if_necessary$'
+        fb = ctx.body(r'^writers::file_log_writer::FileLogWriter::rotate$')
+        bad = None
+        n = 0
+        for r in FDI(f, effects=[MOUNT], no_inline=[MOUNT], max_rows=2000).run(fb.path):
+            if r.undecided:
+                raise CheckError(f"{rule}: FileLogWriter::rotate UNDECIDED {r.undecided}")
+            res = repr(r.result).replace('$', '')
+            ok = res.startswith('Result::Ok') or 'mount_next_linewriter_if_necessary#' in res      # Ok(..) or the rotation's own result handed on
+            mounts = [e for e in r.effects if re.search(MOUNT, e[0])]
+            if ok:
+                n += 1
+                if len(mounts) != 1 or mounts[0][1][-1] != 'True':
+                    bad = f"returns Ok after {len(mounts)} rotation request(s) with force = {[e[1][-1] for e in mounts]}"
+        R.check(rule, f"{fb.path}|forced-rotation", not bad and n >= 1, "Ok only after exactly one forced rotation of the state", f"FileLogWriter::rotate {bad or 'has no successful row'}: "
+                "an explicitly triggered rotation does not rotate", where=fb.loc())
 
 
 class _Map:
